@@ -382,6 +382,16 @@ pub fn run(ctx: &Ctx) -> (Stats, Spec) {
     for t in ["a & (b | c)", "a | (b & c)", "-a & (b ^ c)", "a => (b & c & d)", "(a | b) & (c | d)", "true", "false", "a"] {
         cli_case(ctx, &mut st, t);
     }
+    // forced choices with LONG names of multi-byte letters (every alignment of the characters to
+    // the byte offsets 16 .. 130): the dropped choice is reported by name
+    for pad in 0..4usize {
+        for (letter, count) in [("ö", 70usize), ("中", 45), ("𝒳", 33), ("é", 20)] {
+            let name = format!("{}{}", "v".repeat(pad), letter.repeat(count));
+            cli_case(ctx, &mut st, &format!("-{} & (k | m)", name));
+            cli_case(ctx, &mut st, &format!("{} | (k & m)", name));
+            st.bump("forced_choices_with_long_multibyte_names");
+        }
+    }
     // diagrams with 2^16 .. 2^21 paths (the walk is per path: about a second for 2^21)
     let mp: Vec<(usize, usize)> = ctx.tier.pick(vec![(16, 0), (18, 1), (20, 2), (21, 3), (21, 0)], vec![(16, 0), (17, 3), (18, 1), (19, 2), (20, 2), (20, 1), (21, 3), (21, 0), (22, 1), (22, 2)]);
     let parts = with_stderr_gagged(|| util::par_jobs(mp.len(), |j| { let mut s = Stats::new(); many_paths_case(&mut s, mp[j].0, mp[j].1, ctx.seed); s }));
